@@ -3,7 +3,9 @@
    and "mem-bfs" (closure exploration with its own canonicalisation).
 
    Script syntax
-     header:  pool U U S S W A ...   kinds of the pool slots
+     header:  pool U U S S W A G ... kinds of the pool slots (G = a struct cstl_guarded_ptr used directly)
+              constapi 1             driver only: call the *_const variants of the accessors (same specification,
+                                     so the model ignores the line)
               ext 40 40              byte sizes of the caller's external buffers
               fail o1 o2 ...         absolute ordinals of failing allocator requests
               failfrom n             every request with ordinal >= n fails
@@ -40,6 +42,13 @@ let parse_op (w : string list) : op option =
   | ["wswap"; a; b] -> Some (OM (WSwap (ni a, ni b)))
   | ["wreset"; w] -> Some (OM (WReset (ni w)))
   | ["straycopy"; s; d] -> Some (OM (StrayCopy (ni s, ni d)))
+  (* guarded pointer objects; a pointer value is a small integer, 0 = NULL *)
+  | ["ginit"; g] -> Some (OM (GInit (ni g)))
+  | ["gset"; g; v] -> Some (OM (GSet (ni g, (let i = int_of_string v in if i = 0 then None else Some (nat_of_int i)))))
+  | ["gget"; g] -> Some (OM (GGet (ni g)))
+  | ["ggetc"; g] -> Some (OM (GGetC (ni g)))
+  | ["gcopy"; d; s] -> Some (OM (GCopy (ni d, ni s)))
+  | ["gswap"; a; b] -> Some (OM (GSwap (ni a, ni b)))
   | ["ainit"; a] -> Some (OA (VInit (ni a)))
   | ["aalloc"; a; nm; sz] -> Some (OA (VAlloc (ni a, nn nm, nn sz)))
   | ["aset"; a; e; nm; sz] -> Some (OA (VSet (ni a, ni e, nn nm, nn sz)))
@@ -61,8 +70,8 @@ let split_fail (w : string list) : string list * int list =
   go [] w
 
 let kind_of_string = function
-  | "U" -> KU | "S" -> KS | "W" -> KW | "A" -> KA | s -> failwith ("kind " ^ s)
-let kind_letter = function KU -> "U" | KS -> "S" | KW -> "W" | KA -> "A"
+  | "U" -> KU | "S" -> KS | "W" -> KW | "A" -> KA | "G" -> KG | s -> failwith ("kind " ^ s)
+let kind_letter = function KU -> "U" | KS -> "S" | KW -> "W" | KA -> "A" | KG -> "G"
 
 let zopt_i (o : Datatypes.nat option) = match o with None -> -1 | Some n -> int_of_nat n
 
@@ -75,9 +84,11 @@ let blk (s : st) (o : Datatypes.nat option) : int =
 let dump_obj (s : st) (i : int) (o : obj) : string =
   let b = Buffer.create 64 in
   let self = match o.ogp.gself with ASlot j -> string_of_int (int_of_nat j) | AData d -> "D" ^ string_of_int (int_of_nat d) in
-  let p = blk s o.ogp.gp in
+  (* a guarded pointer object holds a value of the caller, not a block *)
+  let p = if o.okind = KG then zopt_i o.ogp.gp else blk s o.ogp.gp in
   Printf.bprintf b "| %s%d self=%s p=%d" (kind_letter o.okind) i self p;
   (match o.okind with
+   | KG -> ()
    | KU -> Printf.bprintf b " c=%d" (zopt_i o.oclr)
    | _ ->
      let m = ref None in
@@ -137,6 +148,7 @@ let run_case ~(v0 : bool) (c : case) =
     | "pool" :: ks -> kinds := ks
     | "ext" :: es -> exts := es
     | "cbprobe" :: _ -> ()
+    | "constapi" :: _ -> ()
     | "fail" :: os -> fails := L.map int_of_string os
     | ["failfrom"; n] -> from := Some (int_of_string n)
     | _ ->
@@ -187,10 +199,10 @@ let canon (s : st) : string =
   L.iter (fun (o : obj) ->
     Printf.bprintf b "%s %s " (kind_letter o.okind)
       (match o.ogp.gself with ASlot j -> string_of_int (int_of_nat j) | AData d -> "D");
-    let p = pb o.ogp.gp in
+    let p = if o.okind = KG then begin Printf.bprintf b "v%d " (zopt_i o.ogp.gp); None end else pb o.ogp.gp in
     Printf.bprintf b "c%d o%s l%s " (zopt_i o.oclr) (string_of_n o.ooff) (string_of_n o.olen);
     (match o.okind, p with
-     | KU, _ | _, None -> ()
+     | KU, _ | KG, _ | _, None -> ()
      | _, Some d ->
        (match lookup d s.datas with
         | None -> Buffer.add_string b "nodata "
@@ -306,6 +318,14 @@ let scope_ops (scope : string) : string list * string list =
       add "straycopy 5 6"; add "straycopy 6 5";
       add "sinit 0"; add "sinit 1"; add "winit 2"; add "uinit 3"; add "uinit 4"; add "ainit 5"; add "ainit 6";
       ["pool S S W U U A A"; "ext 40"]
+    | "guarded" ->
+      (* 3 guarded pointer objects; values NULL, 1, 2; stray copies between all of them *)
+      L.iter (fun g ->
+        add "ginit %d" g; add "gset %d 0" g; add "gset %d 1" g; add "gset %d 2" g; add "gget %d" g; add "ggetc %d" g;
+        L.iter (fun h ->
+          add "gcopy %d %d" g h; if g <= h then add "gswap %d %d" g h;
+          if g <> h then add "straycopy %d %d" g h) (rng 0 3)) (rng 0 3);
+      ["pool G G G"]
     | s -> failwith ("unknown scope " ^ s) in
   (header, L.rev !ops)
 
